@@ -98,6 +98,19 @@ claims = {
        "Stack.Push refuses a file whose name is on the stack (recursion error) and Pop forgets exactly the popped name.",
   note=TB + " Assumed lemma: filepath.Join(d, p) stays below d for a relative dot-free p; assume clauses of Stack.Pop (ownership of stacked scanners; names of the remaining items stay registered).",
   ref="§6 C14"),
+ "C16": dict(
+  text="Frame argument over the real code, in two parts. (a) Mechanical, on the SSA of everything the five accessors of kit.JApi reach in the module (closed world: static "
+       "calls, closures, function values, interface dispatch over the module's methods, and every MarshalJSON/MarshalText/String/Error method, which encoding/json reaches "
+       "by reflection): code that runs on every call writes only memory allocated during that call (interprocedural freshness: per-parameter, per-result, per-container "
+       "facts as a greatest fixpoint); no external declared stateful (the regex example generator) is called outside a sync.Once cache fill; the exporter package keeps no "
+       "package-level state; C06's map-order/global-write obligations are re-run. (b) Deductive: the functions of the lazy schema compilation that run under sync.Once "
+       "(inheritPropertiesFromUserType, processAllOf, Unshift, ToUsedUserTypes, StringSet.Add) are verified by SMT against modifies-clauses saying that no ExchangeContent that "
+       "existed before is written except the receiver's Children (inherited children are copies). Together: each accessor is a function of the catalog state and leaves it "
+       "unchanged up to caches filled once. Not decided: calls that leave the module (encoding/json, jsight-schema-core) are assumed repeatable unless declared stateful; the "
+       "rest of the cache-fill code (astNodeToJsightContent and the rules builder) is assumed to write only what it allocates. Thorough adds a BOUNDED cross-check on the real code "
+       "(all call histories of length 3 over built-in documents and /repo/testdata), never counted as proved.",
+  note=TB + " Defect found while writing this check and repaired: D17 (regex example changed on every ToJson).",
+  ref="§6 C16", category="other"),
  "C17": dict(
   text="Panic clause only, thin: schemaObjectFromExchangeSchema's explicit panics are unreachable under its precondition (well-formed exchange schema whose notation is not "
        "'empty'), and newSchemas - which converts every user type - must establish it for every user type of a built catalog. It cannot for `TYPE @x empty`: recorded known "
@@ -118,7 +131,7 @@ not_applicable = {
  "C18": "schedules and data races: the translation is sequential (sync.* erased), no permission logic",
 }
 # properties not yet claimed in this revision are listed as not_applicable with the reason "not yet under contract"
-pending = ["C04","C16"]
+pending = ["C04"]
 
 checks = []
 for pid in sorted(claims):
